@@ -63,6 +63,8 @@ def classify(spec):
             cl.add("empty_tier")
         if t["type"] == "point" and len({e[0] for e in t["entries"]}) < len(t["entries"]):
             cl.add("coinciding_points")
+        if len(t["entries"]) >= 200:
+            cl.add("tier_with_hundreds_of_entries")
     return cl
 
 
@@ -164,6 +166,23 @@ def cases(draw):
                 extra = [t["entries"][k][0], draw(st.sampled_from(["a", "Z", "tone", "burst", t["entries"][k][1] + "x"]))]
                 if extra[1] != t["entries"][k][1]:
                     t["entries"].insert(k + draw(st.integers(0, 1)), extra)
+    if draw(st.integers(0, 15)) == 0:
+        # one long tier (some hundred entries), as real annotation files have
+        n_big = draw(st.integers(260, 330))
+        hi = max(tg["maxT"], n_big * 0.25)
+        if draw(st.booleans()):
+            big = {"type": "interval", "name": "big", "entries": [[i * 0.25, (i + 1) * 0.25, "abc"[i % 3]] for i in range(1, n_big) if i % 7 != 3],
+                   "minT": tg["minT"], "maxT": hi, "style": "grid"}
+        else:
+            big = {"type": "point", "name": "big", "entries": [[(i + 1) * 0.25, "abc"[i % 3]] for i in range(n_big - 1)],
+                   "minT": tg["minT"], "maxT": hi, "style": "grid"}
+        if "big" not in [t["name"] for t in tg["tiers"]] and tg["minT"] <= 0.25:
+            clean_now = all((t["minT"], t["maxT"]) == (tg["minT"], tg["maxT"]) for t in tg["tiers"])
+            tg["tiers"].append(big)
+            tg["maxT"] = hi
+            if clean_now:
+                for t in tg["tiers"]:
+                    t["maxT"] = hi
     # the default minimumIntervalLength (1e-8) is used where no interval or gap can be that short
     mil = "default" if gen.min_gap(tg) >= 1e-6 and draw(st.integers(0, 2)) > 0 else "none"
     return {"tg": tg, "mil": mil}
